@@ -567,6 +567,7 @@ fn construct(decl: Decl) -> Coll {
                 pc: 0,
                 ended: false,
                 items_made: 0,
+                addr: 0,
                 hlo,
                 hhi,
                 is_try,
